@@ -27,7 +27,8 @@ GNext ==
              \/ Delete(m, {id}) /\ UNCHANGED nextid /\ Rec([k |-> "delete", mb |-> m, n |-> Pos(m, id)])
              \/ ~boxes[m][Pos(m, id)].seen /\ MarkSeen(m, id) /\ UNCHANGED nextid /\ Rec([k |-> "seen", mb |-> m, n |-> Pos(m, id)])
        \/ \E m \in Mailbox : boxes[m] # <<>> /\ Purge(m) /\ UNCHANGED nextid /\ Rec([k |-> "purge", mb |-> m])
-       \/ \E k \in Monitor, f \in Mailbox \cup {""} : Join(k, f) /\ UNCHANGED nextid /\ Rec([k |-> "join", mon |-> k, mb |-> f])
+       \/ \E k \in Monitor, f \in Mailbox \cup {""}, v \in {"v1", "v2"} :
+             Join(k, f, v) /\ UNCHANGED nextid /\ Rec([k |-> "join", mon |-> k, mb |-> f, ver |-> v])
        \/ \E k \in Monitor : mon[k].joined /\ Drained(k, mon[k].due) /\ UNCHANGED nextid /\ Rec([k |-> "drain", mon |-> k])
        \/ \E k \in Monitor : mon[k].joined /\ mon[k].due = <<>> /\ Leave(k) /\ UNCHANGED nextid /\ Rec([k |-> "leave", mon |-> k])
        \/ \E m \in Mailbox : PopLogin(m) /\ UNCHANGED nextid /\ Rec([k |-> "poplogin", mb |-> m])
